@@ -504,7 +504,7 @@ func c01Run(r *core.Run) {
 	r.Rule = "engine E: every ordered tuple of distinct catalogue routes registered on a fresh route.Tree (and Flame for the method dimension) x every path; every tuple also with the whole path set served between its registrations (same final answers required); oracle = declarative admission (found iff some form admits) AND the documented priority procedure over a reference trie (winner equality); non-trivial = (set,path) admitted by >=2 registered forms or won after back-tracking out of a higher-ranked branch"
 	var maxSegs, pathSegs, pairPathSegs int
 	if r.Thorough() {
-		r.SetBudget(14 * time.Minute)
+		r.SetBudget(20 * time.Minute)
 		maxSegs, pathSegs, pairPathSegs = 3, 4, 3
 	} else {
 		r.SetBudget(70 * time.Second)
